@@ -60,6 +60,8 @@ func (c C18Case) layout(root string) model.Layout {
 			m.WriteString("json:\n  outputDir: ../out\n")
 		}
 		var y strings.Builder
+		// every package also offers generic types (one nested in the other) and uses those of its imports
+		fmt.Fprintf(&y, "G%d<T>: !record\n  fields:\n    v: T\n    w: W%d<T>\n", i, i)
 		fmt.Fprintf(&y, "R%d: !record\n  fields:\n    self: int\n", i)
 		seen := map[int]bool{}
 		for _, j := range c.Imports[i] {
@@ -68,7 +70,9 @@ func (c C18Case) layout(root string) model.Layout {
 			}
 			seen[j] = true
 			fmt.Fprintf(&y, "    from%d: N%d.R%d\n", j, c.Ns[j], j)
+			fmt.Fprintf(&y, "    gen%d: N%d.G%d<float>\n", j, c.Ns[j], j)
 		}
+		fmt.Fprintf(&y, "W%d<T>: !record\n  fields:\n    item: T\n", i)
 		if i == 0 {
 			y.WriteString("P: !protocol\n  sequence:\n    r: R0\n")
 		}
@@ -303,7 +307,7 @@ func checkC18(c C18Case) *Fail {
 		}
 		want := map[string][]string{}
 		for _, v := range ref.Reachable {
-			want[fmt.Sprintf("N%d", c.Ns[v])] = []string{fmt.Sprintf("R%d", v)}
+			want[fmt.Sprintf("N%d", c.Ns[v])] = []string{fmt.Sprintf("G%d", v), fmt.Sprintf("R%d", v), fmt.Sprintf("W%d", v)}
 		}
 		if !ref.MustErr && fmt.Sprint(want) != fmt.Sprint(obs.Ns) {
 			return failf("c18", "%s: loaded namespaces/definitions %v, expected %v", desc, obs.Ns, want)
